@@ -17,6 +17,9 @@ EdgeRec ==
     act   |-> hist'[Len(hist')].a,
     rule  |-> EdgeRule,
     inert |-> (<<state, rc, sel, nom, pend, phost>> = <<state', rc', sel', nom', pend', phost'>>),
+    \* the whole model state is unchanged (shared-socket routing included): the same agent can take another input
+    pure  |-> (view' = view),
+    delivered |-> last'.delivered,
     from  |-> Snap(state, rc, sel, nom, pend, phost),
     to    |-> Snap(state', rc', sel', nom', pend', phost') ]
 
